@@ -223,3 +223,33 @@ Example C15x_nonvacuous :
   k_err (exec_x nv_penv (fun _ _ => Started 0 "ab" "") nv_envm (XFail 2) (XW WBuf) "/bin/tool" []) = ENil.
 Proof. exact nonvacuous_x. Qed.
 Print Assumptions C15x_nonvacuous.
+
+(* ---- overlapping calls (targets run in parallel): C15's outcome for a call does not depend on the calls in flight.
+   For EVERY schedule of the environment-touching steps of two calls a, b (any entry point's Exec: expansion,
+   start, end; any order, any repetition): the process environment afterwards is the one before, and what each call
+   handed to the OS - argument vector, child environment - is what it hands over when it runs alone
+   ([alone_is_exec]: the k_argv / k_envp of exec_ in that environment), so every theorem above applies to it. ---- *)
+Theorem C15_concurrent : forall sched a b pe,
+  let '(pe', (oa, ob)) := par_calls sched a b pe pobs0 pobs0 in
+  pe' = pe /\ obs_of_alone pe a oa /\ obs_of_alone pe b ob.
+Proof. exact (fun sched a b pe => par_calls_independent sched a b pe pobs0 pobs0 (obs0_alone pe a) (obs0_alone pe b)). Qed.
+
+Theorem C15_alone_is_exec : forall pe child c so se,
+  let x := exec_ pe child (pc_envm c) so se (pc_cmd c) (pc_args c) in
+  k_argv x = alone_argv pe c /\ k_envp x = alone_envp pe c.
+Proof. exact alone_is_exec. Qed.
+
+(* the statement has content: a design that writes the map into the process environment for the duration of the
+   call (t.Setenv style) violates it - the call without a map expands $A to the other call's value and its child
+   inherits it - while the code that exists gives the call-alone answers on the same schedule *)
+Theorem C15_concurrent_setenv_design_refuted :
+  let '(pe', (_, ob)) := par_calls_setenv sx_sched sx_a sx_b sx_pe pobs_s0 pobs_s0 in
+  po_argv (ps_obs ob) = Some ["tool"; "from a"] /\ alone_argv sx_pe sx_b = ["tool"; "inherited"] /\
+  po_envp (ps_obs ob) = Some ["A=from a"] /\ alone_envp sx_pe sx_b = ["A=inherited"] /\
+  (let '(pe2, (_, ob2)) := par_calls sx_sched sx_a sx_b sx_pe pobs0 pobs0 in
+   pe2 = sx_pe /\ po_argv ob2 = Some ["tool"; "inherited"] /\ po_envp ob2 = Some ["A=inherited"]).
+Proof. exact setenv_design_not_independent. Qed.
+
+Print Assumptions C15_concurrent.
+Print Assumptions C15_alone_is_exec.
+Print Assumptions C15_concurrent_setenv_design_refuted.
